@@ -36,6 +36,7 @@ func init() {
 		Exhaustive: true,
 		Gen:        genC03,
 		Run:        runC03,
+		RunChild:   runC03Direct,
 		Compare:    cmpC03,
 		Shrink:     shrinkC03,
 		Workers:    12,
@@ -151,7 +152,17 @@ func c03Parse(b []byte) (any, error) {
 	return v, err
 }
 
+// runC03: whole documents go through the loader, which sets Value next to Ref on every reference — a
+// marshaller that then follows Value can recurse without end (fatal stack overflow), so those cases are
+// evaluated in a child process; everything else runs in-process.
 func runC03(c hx.Case) any {
+	if jbool(c, "loader") {
+		return hx.RunIsolated("C03", c, 20000)
+	}
+	return runC03Direct(c)
+}
+
+func runC03Direct(c hx.Case) any {
 	wrap := jstr(c, "wrap")
 	if wrap == "" {
 		wrap = "kind"
@@ -233,6 +244,9 @@ func cmpC03x(c hx.Case, impl any, reply map[string]any) hx.Verdict {
 		return hx.Verdict{IM: false, IS: true, Detail: "missing observation"}
 	}
 	normal := jbool(spec, "normal")
+	if _, crashed := im["crash"]; crashed || jbool(im, "hang") {
+		return hx.Verdict{IM: false, IS: false, Detail: "serialising the loaded document crashed or hung: " + hx.Canon(im)}
+	}
 	switch jstr(im, "kind") {
 	case "panic", "":
 		if _, p := im["panic"]; p {
